@@ -23,10 +23,10 @@ def cross_backend(pid, tier, seed, workdir, stats):
     for profile in ("churn", "grow", "xback"):
         prefix = os.path.join(workdir, "x-" + profile)
         full = dict(core.ENV, HBV_FULL_DUMP="1")
-        rc, out = core.sh([core.hbv("sse2"), "gen", profile, str(gen_seed(seed, 5)), str(n), prefix], env=full, timeout=3600)
+        rc, out = core.sh([core.hbv("sse2"), "gen", profile, str(gen_seed(seed, 5)), str(n), prefix], env=full, timeout=core.batch_timeout(tier))
         if rc != 0:
             raise Violation("harness crashed generating %s" % profile, out[-1500:], False)
-        rc, out = core.sh([core.hbv("portable"), "replay", prefix + ".ops"], env=full, timeout=3600)
+        rc, out = core.sh([core.hbv("portable"), "replay", prefix + ".ops"], env=full, timeout=core.batch_timeout(tier))
         a = [canon_cross(l) for l in open(prefix + ".real").read().split("\n")]
         b = [canon_cross(l) for l in out.split("\n")]
         stats["evaluations"] += len(a)
@@ -112,10 +112,17 @@ def extras_oracle(pid, tier, seed, workdir, stats):
     for b in ("sse2", "portable"):
         prefix = os.path.join(workdir, "extras-" + b)
         sd = gen_seed(seed, 61)
-        rc, out = core.sh([core.hbv(b), "extras", str(sd), str(n), prefix], timeout=3600)
+        rc, out = core.sh([core.hbv(b), "extras", str(sd), str(n), prefix], timeout=core.batch_timeout(tier))
         if rc != 0 or not os.path.exists(prefix + ".real"):
-            raise Violation("the implementation crashed or aborted in an oracle-only scenario (%s build): hbv extras %d %d" % (b, sd, n),
-                            "# " + out[-1500:].replace("\n", "\n# ") + "\n# replay: %s extras %d %d <prefix>\n" % (core.hbv(b), sd, n), True)
+            # the scenario being executed is the last one announced in the .ops file (flushed before it starts)
+            last = ""
+            if os.path.exists(prefix + ".ops"):
+                ls = [l for l in open(prefix + ".ops", errors="replace").read().split("\n") if l.startswith("scn ")]
+                last = ls[-1] if ls else ""
+            how = "did not terminate (killed after the time limit)" if rc == core.TIMED_OUT else "crashed or aborted"
+            raise Violation("the implementation %s in an oracle-only scenario (%s build): %s" % (how, b, last or "hbv extras %d %d" % (sd, n)),
+                            "# " + out[-1500:].replace("\n", "\n# ") + "\n# failing scenario: %s\n# replay: %s extras %d %d <prefix>   (every scenario derives from the seed; see harness/src/extras.rs)\n"
+                            % (last, core.hbv(b), sd, n), True)
         lines = open(prefix + ".real").read().split("\n")
         stats["evaluations"] += len(lines)
         stats["batches"].append(dict(backend=b, gen="extras (differently seeded hashers, zero-sized maps/sets; oracle only)", lines=len(lines)))
